@@ -174,6 +174,128 @@ def generic_argname_rule(prop, project, result):
                     r.ok()
 
 
+def forwarded_options(project, f):
+    """{(callee short name, parameter)}: parameters of f that are handed, under their own name, to the same-named parameter of a
+    resolved callee (a local that is nothing but a copy of the parameter counts)"""
+    import ast as _ast
+    from .calls import CallCtx
+    from .astutil import calls_in, bind_call, Defs, expand
+    out = set()
+    called = set()
+    derived = set()
+    opaque = set()
+    ctx = CallCtx(project, f, f.cls)
+    d = Defs(f.node)
+    params = set(f.params)
+    for k in calls_in(f.node, include_nested=True):
+        ts = ctx.resolve_call(k)
+        if len(ts) != 1:
+            continue
+        g = ts[0].func
+        called.add(g.short)
+        try:
+            bound = bind_call(k, g, skip_self=(g.cls is not None and "staticmethod" not in g.decorators() and ts[0].how != "explicit-base") or None)
+        except Exception:
+            continue
+        for q, v in bound.items():
+            if q in params and isinstance(v, _ast.AST):
+                v2 = expand(v, d)
+                if isinstance(v2, _ast.Name) and v2.id == q:
+                    out.add((g.short, q))
+                elif any(isinstance(n, _ast.Name) and n.id == q for n in _ast.walk(v2)) or any(isinstance(n, _ast.Name) and n.id == q for n in _ast.walk(v)):
+                    derived.add((g.short, q))
+        if any(kw.arg is None for kw in k.keywords) or any(isinstance(x, _ast.Starred) for x in k.args):
+            opaque.add(g.short)
+    forwarded_options.derived = derived
+    forwarded_options.opaque = opaque
+    return out, called
+
+
+def generic_forward_rule(prop, project, result):
+    """Cxx.G4: an option that a function of the scope handed on, under its own name, to a callee on the confirmed tree is still
+    handed on to that callee (wherever the function still calls it).  An option that is read but no longer forwarded on one
+    call path is honoured on some paths and silently replaced by the callee's default on others."""
+    table = _scope().get("#forward", {}).get(prop)
+    if not table:
+        return
+    r = result.rule("%s.G4" % prop, "options forwarded to a callee on the confirmed tree are still forwarded to it")
+    index = {f.qualname: f for f in project.all_functions()}
+    short_index = {}
+    for f in project.all_functions():
+        short_index.setdefault(f.short, []).append(f)
+    for q, pairs in table.items():
+        f = index.get(q)
+        if f is None:
+            continue
+        r.instance(f)
+        now, called = forwarded_options(project, f)
+        derived, opaque = forwarded_options.derived, forwarded_options.opaque
+        for callee, prm in pairs:
+            if (callee, prm) in now or (callee, prm) in derived or callee in opaque:
+                r.ok()
+                continue
+            if prm not in f.params or callee not in called:
+                continue  # signature changed / the call moved elsewhere: not this rule's business
+            if not any(prm in g.params for g in short_index.get(callee, [])):
+                continue
+            r.violation(f, f.node, "%s still calls %s but no longer hands its `%s` on to it: on this path the callee's default is used whatever the caller asked for" % (f.short, callee, prm))
+
+
+def class_state(cls_info):
+    """attribute name -> set of method names that store it on self"""
+    import ast as _ast
+    out = {}
+    for name, fi in list(cls_info.methods.items()) + [(k + "#setter", v) for k, v in cls_info.setters.items()]:
+        if not fi.params:
+            continue
+        me = fi.params[0]
+        for n in _ast.walk(fi.node):
+            tg = []
+            if isinstance(n, _ast.Assign):
+                for t in n.targets:
+                    tg += list(t.elts) if isinstance(t, (_ast.Tuple, _ast.List)) else [t]
+            elif isinstance(n, (_ast.AugAssign, _ast.AnnAssign)):
+                tg = [n.target]
+            for t in tg:
+                if isinstance(t, _ast.Attribute) and isinstance(t.value, _ast.Name) and t.value.id == me:
+                    out.setdefault(t.attr, set()).add(name)
+    return out
+
+
+def generic_state_rule(prop, project, result):
+    """Cxx.G5: no method outside the constructors gives an object an attribute its class did not have on the confirmed tree
+    (a lazily filled cache: it survives copy(), transforms and masking and nothing invalidates it)."""
+    table = _scope().get("#state", {})
+    scope = _scope().get(prop) or {}
+    if not table or not scope:
+        return
+    r = result.rule("%s.G5" % prop, "no hidden state: methods other than constructors store only attributes the class already had")
+    classes = {q.rsplit(".", 1)[0] for q in scope}
+    for c in project.classes.values():
+        if c.qualname not in classes or c.qualname not in table:
+            continue
+        r.instance(c)
+        known = set(table[c.qualname])
+        for b in c.mro[1:]:
+            known |= set(table.get(getattr(b, "qualname", ""), []))
+        state = class_state(c)
+        vanished = [a for a in table[c.qualname] if a not in state]
+        fresh = [a for a in state if a not in known]
+        for attr, methods in sorted(state.items()):
+            if attr in known:
+                r.ok()
+                continue
+            if vanished and len(fresh) <= len(vanished):
+                continue  # an attribute was renamed, not added
+            if any(attr in getattr(b, "setters", {}) for b in c.mro):
+                continue  # a property with a setter: the store is a call, judged by the rules of that setter
+            lazy = sorted(m for m in methods if m not in ("__init__", "__setstate__", "__new__") and not m.startswith("init_"))
+            if lazy:
+                fi = c.methods.get(lazy[0]) or c.setters.get(lazy[0].split("#")[0])
+                r.violation(fi if fi is not None else c, fi.node if fi is not None else c.node, "%s.%s stores a new attribute `self.%s` that the class did not have: state written outside the constructor is carried along by "
+                            "copy(), survives transforms / masking / retargeting and is never invalidated, so later answers describe the object as it was" % (c.name, lazy[0], attr))
+
+
 CACHE_DECORATORS = {"lru_cache", "cache", "cached", "memoize", "memoized", "cached_property"}
 
 
@@ -255,6 +377,8 @@ def run_rules(mod, project, tier="quick", result=None, generic=True):
             generic_param_rule(mod.PROP, project, result)
             generic_argname_rule(mod.PROP, project, result)
             generic_memo_rule(mod.PROP, project, result)
+            generic_forward_rule(mod.PROP, project, result)
+            generic_state_rule(mod.PROP, project, result)
         except Exception as e:
             result.error("generic rules: internal error %s: %s" % (type(e).__name__, e))
     anchor_filter(mod.PROP, result)
